@@ -1120,3 +1120,40 @@ func lemmaC04_slow_joinaccept_cipher_cflist(key AES128Key, v JoinAcceptPayload, 
 	}
 	verifAssert(cp.Channels == want.Channels, "cflist-channels")
 }
+
+// the same with the maximum of six masks (96 channels, CN470): the sixth mask is not lost
+func lemmaC01_cflist_chmask6(m0, m1, m2, m3, m4, m5 ChMask) {
+	var zero ChMask
+	if m5 == zero {
+		return
+	}
+	l := CFList{CFListType: CFListChannelMask, Payload: &CFListChannelMaskPayload{ChannelMasks: []ChMask{m0, m1, m2, m3, m4, m5}}}
+	b, err := l.MarshalBinary()
+	verifAssert(err == nil, "encodes")
+	if err != nil {
+		return
+	}
+	verifAssert(len(b) == 16, "length")
+	var w CFList
+	err2 := w.UnmarshalBinary(b)
+	verifAssert(err2 == nil, "decodes")
+	if err2 != nil {
+		return
+	}
+	verifAssert(w.CFListType == CFListChannelMask, "type")
+	cp, ok := w.Payload.(*CFListChannelMaskPayload)
+	verifAssert(ok, "payload-type")
+	if !ok {
+		return
+	}
+	verifAssert(len(cp.ChannelMasks) == 6, "six-masks")
+	if len(cp.ChannelMasks) != 6 {
+		return
+	}
+	verifAssert(cp.ChannelMasks[0] == m0, "mask0")
+	verifAssert(cp.ChannelMasks[1] == m1, "mask1")
+	verifAssert(cp.ChannelMasks[2] == m2, "mask2")
+	verifAssert(cp.ChannelMasks[3] == m3, "mask3")
+	verifAssert(cp.ChannelMasks[4] == m4, "mask4")
+	verifAssert(cp.ChannelMasks[5] == m5, "mask5")
+}
